@@ -467,7 +467,20 @@ def run(ctx: Ctx) -> None:
         i = ch.draw(len(arrivals), "pair.i")
         j = ch.draw(len(arrivals), "pair.j")
         a, b = arrivals[i], arrivals[j]
-        if i != j and a.s != b.s and (a.msg, a.x, a.r) != (b.msg, b.x, b.r):
+        if ch.chance(1, 3, "pair.negate?"):
+            # the other error a plain sum cannot see: s written as n - s, in every member or in a drawn few. Each such
+            # member fails alone (its R' is the opposite of a point with even y); with all of them negated the two sides
+            # of the batch equation are opposite points, equal only if both are infinity -- sum(a_i s_i) = 0 mod n,
+            # probability 1/n under independent uniform coefficients (an edge draw a_2 = n - 1 over a duplicated
+            # member would do it, hence this plan's pinned mode)
+            every = bool(ch.draw(2, "negate.some")) is False
+            for k, mbr in enumerate(arrivals):
+                if mbr.s % ec.n and (every or k in (i, j)):
+                    arrivals[k] = dataclasses.replace(mbr, s=ec.n - mbr.s % ec.n, note="negated-s")
+                    swapped = True
+            if swapped:
+                ctx.fault("negate-s-" + ("every-member" if every else "some-members"))
+        elif i != j and a.s != b.s and (a.msg, a.x, a.r) != (b.msg, b.x, b.r):
             arrivals[i] = dataclasses.replace(a, s=b.s, note="swapped-s")
             arrivals[j] = dataclasses.replace(b, s=a.s, note="swapped-s")
             swapped = True
